@@ -106,7 +106,8 @@ type cCfg struct {
 	Exp                 goconfig.ThermalMotion
 	ThrOn               bool
 	BucketS, RefillS    int
-	BucketMs            int // bucket-size need not be a whole number of seconds
+	BucketMs            int  // bucket-size need not be a whole number of seconds
+	ThrKeyless          bool // 'activate' is left to its default (true)
 	HasLoc              bool
 	Lat, Long, Alt, Acc float32
 	LocTS               time.Time
@@ -138,10 +139,12 @@ type cConn struct {
 }
 
 type cScenario struct {
-	Conns   []*cConn
-	Focus   string
-	OutName string // name of the output directory ("" = out)
-	PreDir  bool   // the output directory already has its constant-recordings folder (left by an earlier run of the daemon)
+	Conns     []*cConn
+	Focus     string
+	OutName   string // name of the output directory ("" = out)
+	PreDir    bool   // the output directory already has its constant-recordings folder (left by an earlier run of the daemon)
+	PreFile   bool   // storage fault: a regular file stands where the constant-recordings folder should be
+	StartGone bool   // storage fault: the output directory is missing when the first connection starts (an 'R' event brings it back)
 }
 
 func (sc *cScenario) outName() string {
@@ -184,7 +187,11 @@ func (c *cCfg) toml(outDir string) string {
 		}
 		b.WriteString("\n")
 	}
-	fmt.Fprintf(&b, "[thermal-throttler]\nactivate = %v\nbucket-size = \"%dms\"\nmin-refill = \"%ds\"\n\n", c.ThrOn, c.BucketS*1000+c.BucketMs, c.RefillS)
+	b.WriteString("[thermal-throttler]\n")
+	if !(c.ThrOn && c.ThrKeyless) {
+		fmt.Fprintf(&b, "activate = %v\n", c.ThrOn)
+	} // (throttling is on by default: the key may be left out)
+	fmt.Fprintf(&b, "bucket-size = \"%dms\"\nmin-refill = \"%ds\"\n\n", c.BucketS*1000+c.BucketMs, c.RefillS)
 	if c.HasLoc {
 		fmt.Fprintf(&b, "[location]\nlatitude = %v\nlongitude = %v\naltitude = %v\naccuracy = %v\n", c.Lat, c.Long, c.Alt, c.Acc)
 		if !c.LocTS.IsZero() {
@@ -354,6 +361,7 @@ func genCfg(r *verifsim.Run, focus string) cCfg {
 		if c.ThrOn {
 			c.BucketS = r.OneOf(1, 2, 3, 5, 10)
 			c.BucketMs = r.OneOf(0, 0, 100, 500, 900)
+			c.ThrKeyless = r.Chance(1, 3)
 			c.RefillS = r.OneOf(2, 5, 20, 60)
 			if c.MinS+c.Preview == 0 {
 				c.MinS, c.MaxS = 1, c.MaxS+1
@@ -733,6 +741,9 @@ func execPlain(sc *cScenario) *cResult {
 	if sc.PreDir {
 		os.MkdirAll(filepath.Join(outDir, "constant-recordings"), 0755)
 	}
+	if sc.PreFile {
+		os.WriteFile(filepath.Join(outDir, "constant-recordings"), []byte("not a directory\n"), 0644)
+	}
 	res.OutDir = outDir
 	resetProcessGlobals()
 	var logBuf bytes.Buffer
@@ -768,6 +779,9 @@ func execPlain(sc *cScenario) *cResult {
 				if err := deleteTempFiles(conf.OutputDir); err != nil { // as runMain does once at start-up
 					res.ParseErr = err
 					return
+				}
+				if sc.StartGone {
+					os.Rename(outDir, outDir+".gone")
 				}
 			}
 			nProc := 0
@@ -1662,7 +1676,7 @@ func unitsC() []verifsim.Unit {
 			Assumptions: []string{"the interleaving of the race pass is chosen by the Go runtime, not by the simulator: the report replays (happens-before detector), the execution does not"},
 		},
 		{
-			Name: "C.snap", Props: []string{"C16"}, Run: runCSnap, MinimiseRuns: 60,
+			Name: "C.snap", Props: []string{"C16", "C17"}, Run: runCSnap, MinimiseRuns: 60,
 			Rule:    "one case = 1-3 camera connections of uniform-valued frames (all pixels = frame number, so any mixture is visible; bad frames and clear markers included) + 1-3 client tasks issuing TakeSnapshot / TakeTestRecording / CameraInfo at tape-chosen instants of the scheduler's step clock; the seeded scheduler interleaves clients, camera and frame loop at statement granularity of the instrumented files; non-trivial = at least one request and one frame; distinct = interleaving signature (sequence of context switches with the statement labels)",
 			Measure: "c16.interleaving = distinct context-switch sequences (task, label)",
 			Real:    realC, Stub: stubC,
@@ -1807,6 +1821,7 @@ type cSchedResult struct {
 	Served    map[string]int
 	TaskPanic string
 	ObsErr    *verifsim.Violation
+	Triggers  bool // the daemon's own periodic test-recording triggers ran
 }
 
 type cSchedOpts struct {
@@ -1985,6 +2000,10 @@ func execSched(r *verifsim.Run, sc *cScenario, opt cSchedOpts) *cSchedResult {
 			s.Run()
 			res.Deadlock = s.Deadlock
 			res.Steps, res.Switches, res.Sig, res.Served = s.Steps, s.Switches, s.Signature(), s.Served
+			res.Triggers = opt.Triggers
+			if w := s.RecursiveRLockWriter(); w != "" && res.Deadlock == "" {
+				res.Deadlock = fmt.Sprintf("deadlock (latent): recursive read lock by %s while task %s takes the write side of the same lock in this run - the schedule in which the writer arrives between the two RLock calls blocks both for ever", s.RecursiveRLock, w)
+			}
 			res.End = time.Now()
 			if s.Aborted() {
 				// unblock tasks that sit in pipe reads/writes so that the bubble can end
